@@ -41,13 +41,24 @@ class Real:
         if rc:
             raise vlib.BuildError("module build %s:\n%s" % (name, out[-3000:]))
 
-    def run(self, args, prog="pdsh", env=None, stdin=None, timeout=20, cwd=None):
+    def run(self, args, prog="pdsh", env=None, stdin=None, timeout=20, cwd=None, extra_fds=0):
+        """extra_fds: the process starts with that many additional open (inheritable) descriptors, so that every descriptor it
+        opens itself has a high number"""
         e = {"PATH": "/usr/bin:/bin", "HOME": "/root", "ASAN_OPTIONS": "detect_leaks=0", "LANG": "C"}
         if env:
             e.update(env)
+        held = []
+        if extra_fds:
+            for _ in range(extra_fds):
+                fd = os.open("/dev/null", os.O_RDONLY)
+                os.set_inheritable(fd, True)
+                held.append(fd)
         try:
             p = subprocess.run([os.path.join(self.dir, "bin", prog)] + list(args), env=e, input=stdin, stdout=subprocess.PIPE,
-                               stderr=subprocess.PIPE, timeout=timeout, cwd=cwd)
+                               stderr=subprocess.PIPE, timeout=timeout, cwd=cwd, close_fds=not extra_fds)
             return p.returncode, p.stdout, p.stderr
         except subprocess.TimeoutExpired as ex:
             return -999, ex.stdout or b"", ex.stderr or b""
+        finally:
+            for fd in held:
+                os.close(fd)
